@@ -5,6 +5,7 @@ import (
 	"fmt"
 	"os"
 	"runtime/debug"
+	"runtime/pprof"
 	"sort"
 	"strconv"
 	"strings"
@@ -40,12 +41,19 @@ var commonAssumptions = []string{
 }
 
 func main() {
+	if pf := os.Getenv("VERIF_PROF"); pf != "" {
+		f, _ := os.Create(pf)
+		pprof.StartCPUProfile(f)
+		defer pprof.StopCPUProfile()
+	}
 	if len(os.Args) < 2 {
 		usage()
 	}
 	switch os.Args[1] {
 	case "check":
-		os.Exit(cmdCheck(os.Args[2:]))
+		code := cmdCheck(os.Args[2:])
+		pprof.StopCPUProfile()
+		os.Exit(code)
 	case "explain":
 		if len(os.Args) < 3 {
 			usage()
